@@ -106,3 +106,46 @@ func vh_C15_xff_parser() {
 		verifAssert("C15.xff.first-element-is-the-client", gerr == nil && got.Equal(c.ip))
 	}
 }
+
+// reverse-proxy mode: only the one configured real-client-IP header names the client. Two
+// requests that agree on that header (same value, or both without it) get the same answer
+// whatever the other forwarding headers say -- no fall-back to a header the operator did not choose
+// verif: unwind=8 strlen=8 also=C15
+func vh_C16_only_configured_header() {
+	names := []string{"X-Real-IP", "X-Forwarded-For", "X-ProxyUser-IP"}
+	keys := []string{"X-Real-Ip", "X-Forwarded-For", "X-Proxyuser-Ip"}
+	k := ndChoice("configured-header", len(names))
+	p, err := GetRealClientIPParser(names[k])
+	verifAssert("C16.configured.parser-available", err == nil && p != nil)
+	if err != nil || p == nil {
+		return
+	}
+	vals := []string{"", "203.0.113.7", "garbage"}
+	own := vals[ndChoice("configured-header-value", len(vals))]
+	mk := func(tag string) http.Header {
+		h := http.Header{}
+		for i := range keys {
+			if i == k {
+				if own != "" {
+					h[keys[i]] = []string{own}
+				}
+			} else if ndBool(tag + "-other-forwarding-header-present") {
+				h[keys[i]] = []string{"10.1.2.3"}
+			}
+		}
+		return h
+	}
+	ip1, e1 := p.GetRealClientIP(mk("r1"))
+	ip2, e2 := p.GetRealClientIP(mk("r2"))
+	verifAssert("C16.configured.other-headers-change-nothing", (e1 == nil) == (e2 == nil) && (ip1 == nil) == (ip2 == nil) && (ip1 == nil || ip1.Equal(ip2)))
+	switch own {
+	case "":
+		verifAssert("C16.configured.absent-header-names-nobody", e1 == nil && ip1 == nil)
+		verifReach("absent")
+	case "203.0.113.7":
+		verifAssert("C16.configured.header-names-the-client", e1 == nil && ip1.Equal(net.IPv4(203, 0, 113, 7)))
+		verifReach("address")
+	default:
+		verifAssert("C16.configured.garbage-is-an-error", e1 != nil && ip1 == nil)
+	}
+}
